@@ -48,11 +48,18 @@ static void session_mode(int alg, int tier)
         uint8_t n0[16]; chain_nonce(n0, chain, lead ? 0xfe : 0x41);
         int total = 1; for (int d = 0; d < depth; d++) total *= 3;
         /* how the session is opened: 0 = init with N on dirty storage; 1 = init with a NULL nonce (documented: all-zero nonce) on dirty storage;
-         * 2 = re-initialised with a NULL nonce after a packet of an earlier session; 3 = re-initialised with N and a NULL key (documented: all-zero key) after a packet of an earlier session */
-        for (int open = 0; open < 4; open++) for (int code = 0; code < total; code++) {
+         * 2 = re-initialised with a NULL nonce after a packet of an earlier session; 3 = re-initialised with N and a NULL key (documented: all-zero key) after a packet of an earlier session;
+         * 4 = re-keyed in mid-session keeping the running counter: one packet under K2 from N-1, then reinit(&st, st.nonce, K) with the object's own public nonce field as the nonce argument */
+        for (int open = 0; open < 5; open++) for (int code = 0; code < total; code++) {
             api_inc_state st; uint8_t cur[16]; memcpy(cur, n0, 16); memset(&st, 0xA5, sizeof st); static const uint8_t ZK[20] = {0}; const uint8_t *key = open == 3 ? ZK : K;
             if (open == 0) api_inc_init[alg](&st, n0, K);
             else if (open == 1) { api_inc_init[alg](&st, 0, K); memset(cur, 0, 16); }
+            else if (open == 4) {
+                uint8_t before[16], t[16], o[8]; memcpy(before, n0, 16); for (int q = 15; q >= 0; q--) if (before[q]--) break;    /* N - 1 (128-bit big-endian) */
+                static uint8_t KB[20]; if (!KB[0]) hx_fill(KB, 20, HX_P_DENSE, 78);
+                api_inc_init[alg](&st, before, KB); api_inc_start[alg](&st, ADB, 3); api_inc_enc[alg](&st, MSG, o, 5); api_inc_encfin[alg](&st, t);
+                api_inc_reinit[alg](&st, api_inc_nonce(alg, &st), K);
+            }
             else {
                 uint8_t other[16], t[16], o[8]; chain_nonce(other, (chain + 9) % 17, 0xfe); api_inc_init[alg](&st, other, K);
                 api_inc_start[alg](&st, ADB, 3); api_inc_enc[alg](&st, MSG, o, 5); api_inc_encfin[alg](&st, t);
